@@ -136,6 +136,8 @@ def a(ctx):
             m + ".mtype": Sym(mtype),
             m + ".code": code,
             m + ".remote.is_multicast_locally": mcast,
+            # the *source* of an incoming datagram is never a multicast address; what matters is the local address
+            m + ".remote.is_multicast": False,
         }
         calls = [
             ("self._deduplicate_message($x)", dedup),
@@ -484,6 +486,7 @@ def g(ctx):
 F_MM = "aiocoap/messagemanager.py"
 R.seed("C10.a", F_MM, "        elif message.code.is_request() and message.mtype in (CON, NON):", "        elif message.code.is_request() and message.mtype in (CON,):", "NON requests ignored")
 R.seed("C10.a", F_MM, "                if message.mtype == CON and not message.remote.is_multicast_locally:", "                if message.mtype == CON:", "Reset also on multicast")
+R.seed("C10.a", F_MM, "                if message.mtype == CON and not message.remote.is_multicast_locally:", "                if message.mtype == CON and not message.remote.is_multicast:", "tests the peer's address instead of the local one")
 R.seed("C10.a", F_MM, "                if message.mtype == CON and not message.remote.is_multicast_locally:", "                if not message.remote.is_multicast_locally:", "Reset for unmatched NON")
 R.seed("C10.a", F_MM, "        if message.code is EMPTY and message.mtype is CON:\n            self._process_ping(message)", "        if message.code is EMPTY and message.mtype in (CON, NON):\n            self._process_ping(message)", "Reset for empty NON")
 R.seed("C10.a", F_MM, "        elif message.code.is_response() and message.mtype in (CON, NON, ACK):", "        elif message.code.is_response() and message.mtype in (CON, NON, ACK, RST):", "response in RST processed")
